@@ -153,7 +153,7 @@ class AccessLogAtoms(dict):
             method = request["method"]
         else:
             method = "GET"
-        query_string = request["query_string"].decode()
+        query_string = request["query_string"].decode("latin1")
         path_with_qs = request["path"] + ("?" + query_string if query_string else "")
 
         status_code = "-"
